@@ -225,4 +225,186 @@ theorem indexDelete_spec (times : List Int) (log : List (Key × Int × Int)) (k 
               · rw [if_neg h5]
                 exact ⟨hsound', hmono, fun t _ h6 h7 => hnew t h6 h7⟩
 
+
+/-! ### the static part of a reader: its blocks -/
+
+/-- the key map of one file: ascending keys, non-empty runs, every run a chain -/
+structure BOK (B : List (Key × List (Pts Int))) : Prop where
+  asc : KeysAsc B
+  ne : ∀ e ∈ B, e.2 ≠ []
+  chain : ∀ k, ChainOK (getK B k)
+
+/-- the timestamps of key `k` in the file -/
+def timesOf (B : List (Key × List (Pts Int))) (k : Key) : List Int := (getK B k).flatten.map (·.1)
+
+theorem getK_of_mem : ∀ {B : List (Key × List (Pts Int))}, KeysAsc B → ∀ {k : Key} {bs : List (Pts Int)},
+    (k, bs) ∈ B → getK B k = bs
+  | [], _, _, _, h => by simp at h
+  | e :: rest, hs, k, bs, h => by
+    have hp := List.pairwise_cons.mp hs
+    rcases List.mem_cons.mp h with rfl | h2
+    · have : getK rest k = [] := by
+        simp only [getK, List.flatMap_eq_nil_iff]
+        intro x hx
+        have hm := (List.mem_filter.mp hx).1
+        have hk := (List.mem_filter.mp hx).2
+        simp only [decide_eq_true_eq] at hk
+        have := hp.1 x hm
+        rw [hk] at this
+        simp only at this
+        rw [keyLt_irrefl] at this; cases this
+      simp only [getK, List.filter_cons, decide_true, if_true, List.flatMap_cons] at this ⊢
+      simp [this]
+    · have hne : e.1 ≠ k := by
+        intro heq
+        have := hp.1 (k, bs) h2
+        rw [heq] at this
+        simp only at this
+        rw [keyLt_irrefl] at this; cases this
+      have ih := getK_of_mem hp.2 h2
+      simp only [getK, List.filter_cons, hne, decide_false] at ih ⊢
+      exact ih
+
+theorem getK_nil_of_not_mem {B : List (Key × List (Pts Int))} {k : Key} (h : ∀ e ∈ B, e.1 ≠ k) : getK B k = [] := by
+  simp only [getK, List.flatMap_eq_nil_iff]
+  intro x hx
+  have hm := (List.mem_filter.mp hx).1
+  have hk := (List.mem_filter.mp hx).2
+  simp only [decide_eq_true_eq] at hk
+  exact absurd hk (h x hm)
+
+theorem mem_timesOf {B : List (Key × List (Pts Int))} {k : Key} {t : Int} :
+    t ∈ timesOf B k ↔ ∃ b ∈ getK B k, ∃ p ∈ b, p.1 = t := by
+  simp only [timesOf, List.mem_map, List.mem_flatten]
+  constructor
+  · rintro ⟨p, ⟨b, hb, hp⟩, rfl⟩; exact ⟨b, hb, p, hp, rfl⟩
+  · rintro ⟨b, hb, p, hp, rfl⟩; exact ⟨p, ⟨b, hb, hp⟩, rfl⟩
+
+theorem chain_ge_first : ∀ (L : List (Pts Int)), ChainOK L → ∀ b0, L.head? = some b0 → ∀ a, b0.head? = some a →
+    ∀ c ∈ L, ∀ p ∈ c, a.1 ≤ p.1
+  | [], _, _, h, _, _, _, _, _, _ => by simp at h
+  | b :: L, hc, b0, h, a, ha, c, hcm, p, hp => by
+    simp at h; subst h
+    rcases List.mem_cons.mp hcm with rfl | h2
+    · exact asc_head_le hc.2.1 ha p hp
+    · have := hc.2.2.2.1 c h2 a (List.mem_of_head? ha) p hp
+      omega
+
+theorem chain_times_inR {L : List (Pts Int)} (hc : ChainOK L) : ∀ c ∈ L, ∀ p ∈ c, InR p.1 :=
+  fun c hcm p hp => (chain_mem_facts L hc c hcm).2.2 p hp
+
+theorem foldl_min_le (l : List Int) : ∀ (init : Int),
+    l.foldl (fun a b => if b < a then b else a) init ≤ init ∧
+    ∀ x ∈ l, l.foldl (fun a b => if b < a then b else a) init ≤ x := by
+  induction l with
+  | nil => intro init; simp
+  | cons y ys ih =>
+    intro init
+    simp only [List.foldl_cons]
+    have hm : (if y < init then y else init) ≤ init ∧ (if y < init then y else init) ≤ y := by
+      split <;> omega
+    generalize (if y < init then y else init) = m at hm ⊢
+    obtain ⟨i1, i2⟩ := ih m
+    refine ⟨by omega, ?_⟩
+    intro x hx
+    rcases List.mem_cons.mp hx with rfl | h2
+    · omega
+    · exact i2 x h2
+
+theorem foldl_max_ge (l : List Int) : ∀ (init : Int),
+    init ≤ l.foldl (fun a b => if b > a then b else a) init ∧
+    ∀ x ∈ l, x ≤ l.foldl (fun a b => if b > a then b else a) init := by
+  induction l with
+  | nil => intro init; simp
+  | cons y ys ih =>
+    intro init
+    simp only [List.foldl_cons]
+    have hm : init ≤ (if y > init then y else init) ∧ y ≤ (if y > init then y else init) := by
+      split <;> omega
+    generalize (if y > init then y else init) = m at hm ⊢
+    obtain ⟨i1, i2⟩ := ih m
+    refine ⟨by omega, ?_⟩
+    intro x hx
+    rcases List.mem_cons.mp hx with rfl | h2
+    · omega
+    · exact i2 x h2
+
+theorem ptsFirst_le {b : Pts Int} (ha : Asc b) {p : Int × Int} (hp : p ∈ b) : ptsFirst b ≤ p.1 := by
+  cases b with
+  | nil => simp at hp
+  | cons x xs => simpa [ptsFirst] using asc_head_le ha (by rfl) p hp
+
+theorem le_ptsLast {b : Pts Int} (ha : Asc b) {p : Int × Int} (hp : p ∈ b) : p.1 ≤ ptsLast b := by
+  have hne : b ≠ [] := by intro h; rw [h] at hp; simp at hp
+  obtain ⟨a, z, _, hz⟩ := head_getLast_of_ne hne
+  simpa [ptsLast, hz] using asc_le_last ha hz p hp
+
+/-- every point of the file lies within the file's time range -/
+theorem file_range {B : List (Key × List (Pts Int))} (ok : BOK B) (rf : RFile) (hb : rf.blocks = B)
+    {k : Key} {t : Int} (ht : t ∈ timesOf B k) : rf.fmin ≤ t ∧ t ≤ rf.fmax := by
+  obtain ⟨b, hbm, p, hp, rfl⟩ := mem_timesOf.mp ht
+  have hasc := (chain_mem_facts _ (ok.chain k) b hbm).2.1
+  have hin : ∃ kb ∈ B, b ∈ kb.2 := by
+    simp only [getK, List.mem_flatMap, List.mem_filter] at hbm
+    obtain ⟨kb, ⟨h1, _⟩, h2⟩ := hbm
+    exact ⟨kb, h1, h2⟩
+  obtain ⟨kb, hkb, hbk⟩ := hin
+  constructor
+  · have : ptsFirst b ∈ B.flatMap (fun kb => kb.2.map ptsFirst) := by
+      simp only [List.mem_flatMap, List.mem_map]
+      exact ⟨kb, hkb, b, hbk, rfl⟩
+    have h1 := (foldl_min_le _ maxInt64).2 _ this
+    have h2 := ptsFirst_le hasc hp
+    unfold RFile.fmin; rw [hb]; omega
+  · have : ptsLast b ∈ B.flatMap (fun kb => kb.2.map ptsLast) := by
+      simp only [List.mem_flatMap, List.mem_map]
+      exact ⟨kb, hkb, b, hbk, rfl⟩
+    have h1 := (foldl_max_ge _ minInt64).2 _ this
+    have h2 := le_ptsLast hasc hp
+    unfold RFile.fmax; rw [hb]; omega
+
+/-- `keyRange` bounds the key's points; without a range the key has no points -/
+theorem keyRange_spec {B : List (Key × List (Pts Int))} (ok : BOK B) (rf : RFile) (hb : rf.blocks = B) (k : Key) :
+    match rf.keyRange k with
+    | some (kmin, kmax) => ∀ t ∈ timesOf B k, kmin ≤ t ∧ t ≤ kmax
+    | none => timesOf B k = [] := by
+  unfold RFile.keyRange
+  rw [hb]
+  cases hf : B.find? (fun kb => decide (kb.1 = k)) with
+  | none =>
+    simp only
+    have : ∀ e ∈ B, e.1 ≠ k := by
+      intro e he heq
+      have := List.find?_eq_none.mp hf e he
+      simp [heq] at this
+    simp [timesOf, getK_nil_of_not_mem this]
+  | some kb =>
+    obtain ⟨k', bs⟩ := kb
+    have hm := List.mem_of_find?_eq_some hf
+    have hk : k' = k := by simpa using List.find?_some hf
+    subst hk
+    have hg := getK_of_mem ok.asc hm
+    simp only
+    cases hh : bs.head? with
+    | none =>
+      have : bs = [] := List.head?_eq_none_iff.mp hh
+      exact absurd this (ok.ne _ hm)
+    | some b0 =>
+      have hne : bs ≠ [] := ok.ne _ hm
+      obtain ⟨b1, hl⟩ : ∃ b1, bs.getLast? = some b1 := ⟨_, List.getLast?_eq_some_getLast hne⟩
+      simp only [hl]
+      intro t ht
+      obtain ⟨b, hbm, p, hp, rfl⟩ := mem_timesOf.mp ht
+      rw [hg] at hbm
+      have hch := ok.chain k'
+      rw [hg] at hch
+      have f0 := chain_mem_facts _ hch b0 (List.mem_of_head? hh)
+      have f1 := chain_mem_facts _ hch b1 (List.mem_of_getLast? hl)
+      obtain ⟨a, _, ha, _⟩ := head_getLast_of_ne f0.1
+      obtain ⟨_, z, _, hz⟩ := head_getLast_of_ne f1.1
+      have h1 := chain_ge_first bs hch b0 hh a ha b hbm p hp
+      have h2 := chain_le_last bs hch b1 hl z hz b hbm p hp
+      simp only [ptsFirst, ha, ptsLast, hz, Option.map_some, Option.getD_some]
+      exact ⟨h1, h2⟩
+
 end Influx.Model.Compact
